@@ -239,6 +239,56 @@ def start(upgraded: bool, fd1: int, fd2: int, pidfile: bool, ppid_is_old: bool) 
     return PidRec.log == ([("create", "/run/g.pid", 41)] if pidfile else [])
 
 
+def start_pidfiles(old_left_file: bool, ppid_is_old: bool, stale2: bool) -> bool:
+    """
+    post: __return__
+    """
+    # the upgraded start again, with the REAL Pidfile class on the file-system stub (engine/stubs/fs.py): the files
+    # themselves are judged.  Old master = pid 40 (its file "/run/g.pid"), new master = pid 41.
+    import gunicorn.pidfile as PF
+    from engine.stubs.fs import FS, install as fs_install
+    K = KS.Kernel()
+    K.pid = 41
+    K.ppid = 40 if ppid_is_old else 1
+    arb = mk_arbiter(K, 1)
+    arb.cfg.pidfile = "/run/g.pid"
+    arb.cfg.on_starting = lambda a: None
+    arb.cfg.when_ready = lambda a: None
+    arb.cfg.worker_class_str = "sync"
+    arb.cfg.proc_name = "g"
+    arb.worker_class = SimpleNamespace()
+    arb.init_signals = lambda: None
+    del arb.start
+    environ = {"GUNICORN_PID": "40", "GUNICORN_FD": "7"}
+    files = {}
+    if ppid_is_old or old_left_file:
+        files["/run/g.pid"] = b"40\n"                 # a live old master always has its file; a killed one leaves it
+    if stale2:
+        files["/run/g.pid.2"] = b"39\n"               # left over from an earlier, aborted upgrade (pid 39 is gone)
+    fs = FS(files, alive={41} | ({40} if ppid_is_old else set()), pid=41)
+    undo, rec = wire(arb, K, environ, {SOCK})
+    A.sock = ns("A.sock", create_sockets=lambda cfg, log, fds=None: [Lsn("x", f) for f in (fds or [7])],
+                close_sockets=lambda l, u=True: None)
+    A.systemd = ns("A.systemd", listen_fds=lambda: 0, sd_notify=lambda *a, **k: None, SD_LISTEN_FDS_START=3)
+    undo_fs = fs_install(PF, fs)
+    try:
+        arb.start()
+        after_start = dict(fs.files)
+        arb.maybe_promote_master()
+        arb.maybe_promote_master()
+    finally:
+        undo_fs()
+        undo()
+    if after_start.get("/run/g.pid.2") != b"41\n":
+        return False                                    # pending upgrade: our pid under the '.2' name
+    if after_start.get("/run/g.pid") != files.get("/run/g.pid"):
+        return False                                    # the old master's file is not ours to touch
+    if ppid_is_old:
+        return fs.files == after_start                  # nothing moves while the old master is alive
+    # old master gone: exactly one pid file, under the configured name, naming us
+    return fs.files == {"/run/g.pid": b"41\n"} and not fs.fds
+
+
 # ---- 4. reap clears reexec_pid -----------------------------------------------------------------------------------------------
 def reap_reexec(status: int, other_first: bool) -> bool:
     """
@@ -377,6 +427,9 @@ OBLIGATIONS = [
     Ob("C14.unlink_flag", "unlink_flag", timeout=300, bound="reexec_pid, master_pid in 0..3, systemd, reuse_port, graceful flags"),
     Ob("C14.reexec", "reexec", timeout=600, bound="reexec_pid, master_pid in 0..2, systemd flag, parent/child side of fork, 2 listener fds 3..9"),
     Ob("C14.start", "start", timeout=600, bound="fresh / upgraded start, 2 inherited fds 3..9, pid file configured or not, old master alive or gone"),
+    Ob("C14.start_pidfiles", "start_pidfiles", timeout=300,
+       bound="upgraded start + promotion with the real Pidfile class on the FS stub: old master alive / gone, its file left behind or "
+             "removed, stale '.2' file present or not"),
     Ob("C14.reap_reexec", "reap_reexec", timeout=300, bound="new master exits with status {0, 9, 3<<8, 1<<8}, with/without a worker exiting first"),
     Ob("C14.history", "history", cases={"quick": [{"n": 3}], "thorough": [{"n": 4}, {"n": 5}]}, timeout={"quick": 600, "thorough": 2400},
        bound="histories of 3 (thorough 4, 5) events from {USR2 old, TERM old, TERM new, USR2 again} over two Arbiter objects"),
